@@ -80,6 +80,16 @@ Definition internal_ok (T : tables) : bool :=
   forallb (fun s => forallb (fun b => factory_eqb (t_internal T s b) (internal_spec s b)) [true; false])
           [Unspecified; Enabled; Disabled].
 
+(* the code generator gives the requested options (user_requested as requested) to the top-level function of a
+   converted entity only; every function definition nested in it gets options that are not user requested, whatever
+   was requested (recursive or not), and call options are never user requested: calling an inner function of
+   converted code enters no context *)
+Definition scope_options_ok (T : tables) : bool :=
+  forallb (fun ur => forallb (fun rc =>
+             Bool.eqb (t_scope_user_requested T false ur rc) ur && negb (t_scope_user_requested T true ur rc))
+           [true; false]) [true; false]
+  && forallb (fun u => negb (t_call_options_user_requested T u)) [true; false].
+
 Definition balance_tables_ok (T : tables) : bool := ctx_ok T && scope_ok T.
 
 Definition tables_ok (T : tables) : bool :=
@@ -87,7 +97,8 @@ Definition tables_ok (T : tables) : bool :=
   && status_eqb (sd_init_status (t_scope T)) Enabled
   && t_to_graph_user_requested T
   && t_disabled_check T
-  && negb (t_dnc_skips_art T) && negb (t_unspec_skips_art T) && negb (t_convert_skips_art T).
+  && negb (t_dnc_skips_art T) && negb (t_unspec_skips_art T) && negb (t_convert_skips_art T)
+  && scope_options_ok T.
 
 (* ---- replaying an event log on a stack: every pop removes the object the log says,
         every observation sees the object the log says ---- *)
@@ -132,6 +143,7 @@ Definition enters_nothing (k : kind) (urconv : bool) : Prop :=
   | KPlain | KArtifact => True
   | KConvert _ _ MNull => urconv = false
   | KScope false | KLambdaScope false => True
+  | KNested _ _ | KNestedG _ => True      (* an inner function (nested def) of converted code, whatever the conversion *)
   | _ => False
   end.
 
